@@ -24,26 +24,32 @@ FileOrd(NI, NX, srt, i, x) == IF srt = "xl" THEN x * NI + i + 1 ELSE i * NX + x 
 MinimalOrd(NX, p, q) == p * NX + q + 1                                                     \* read_line(p): consecutive file traces
 Content(dead, t) == IF t \in dead THEN 0 ELSE t
 
-VARIABLES NI, NX, srt, dead, win, ext
-rvars == <<NI, NX, srt, dead, win, ext>>
+VARIABLES NI, NX, srt, dead, win, ext, fmt     \* fmt: "ieee" (code 5) | "ibm" (code 1) | "int" (any other sample format)
+rvars == <<NI, NX, srt, dead, win, ext, fmt>>
 
 SelfTest == /\ ext = 0        \* (with extended textual headers the raw offsets land in text: never equal to samples)
             /\ \A x \in 0..(NX - 1) : Content(dead, MinimalOrd(NX, 0, x)) = Content(dead, FileOrd(NI, NX, srt, 0, x))
 ShapeGuardB(bug) == IF bug = "xl_guard" THEN win[4] - win[3] = NX ELSE (win[2] - win[1] = NI /\ win[4] - win[3] = NX)
-UsableB(bug) == /\ (bug = "selftest_only" \/ srt = "il")
+UsableB(bug) == /\ fmt # "int"
+                /\ (bug = "selftest_only" \/ srt = "il")
                 /\ SelfTest
                 /\ ShapeGuardB(bug)
 Usable == UsableB(RBug)
+\* what a conversion with reduce_iops = True does.  Deliberate deviation kept from the code: the reduced reader decodes IEEE and IBM
+\* floats only and its self test RAISES on any other sample format (no fallback) - a refusal, the segyio route converts such files
+\* (the sorting test comes first, so a crossline-sorted file of any format falls back)
+Outcome == IF srt = "xl" /\ RBug # "selftest_only" THEN "fallback"
+           ELSE IF fmt = "int" THEN "raise" ELSE IF Usable THEN "reduced" ELSE "fallback"
 Right == Usable => \A p \in 0..(win[2] - win[1] - 1), q \in 0..(win[4] - win[3] - 1) :
                        Content(dead, MinimalOrd(NX, p, q)) = Content(dead, FileOrd(NI, NX, srt, win[1] + p, win[3] + q))
 \* the fallback is not taken needlessly: a whole inline-sorted file without extended headers uses the reduced route
-NotTimid == (srt = "il" /\ ext = 0 /\ win = <<0, NI, 0, NX>>) => Usable
+NotTimid == (srt = "il" /\ ext = 0 /\ win = <<0, NI, 0, NX>> /\ fmt # "int") => Usable
 
-Init == /\ NI \in 2..MaxI /\ NX \in 2..MaxX /\ srt \in {"il", "xl"} /\ ext \in {0, 1}
+Init == /\ NI \in 2..MaxI /\ NX \in 2..MaxX /\ srt \in {"il", "xl"} /\ ext \in {0, 1} /\ fmt \in {"ieee", "ibm", "int"}
         /\ dead \in SUBSET {t \in 1..(NI * NX) : (t - 1) \div NX = 0 \/ (t - 1) % NX = 0 \/ (t - 1) \div NX = NI - 1}      \* edge traces
         /\ win \in {<<a, b, c, d>> : a \in 0..(NI - 1), b \in 1..NI, c \in 0..(NX - 1), d \in 1..NX} /\ win[1] < win[2] /\ win[3] < win[4]
 Next == UNCHANGED rvars
 Spec == Init /\ [][Next]_rvars
 \* (the last flag: some design mutant would take the reduced route here although the code must not - the cases worth converting for real)
-Emit == PrintT(<<"RIO", NI, NX, srt, dead, win, ext, Usable, (UsableB("selftest_only") \/ UsableB("xl_guard")) /\ ~UsableB("none")>>)
+Emit == PrintT(<<"RIO", NI, NX, srt, dead, win, ext, fmt, Outcome, (UsableB("selftest_only") \/ UsableB("xl_guard")) /\ ~UsableB("none")>>)
 =============================================================================
